@@ -81,6 +81,21 @@ partial def freshTree (h : H) (old : Nat) (r : Ref) : Bool :=
   | some c => r ≥ old && c.rc == 1 && c.node.children.all (freshTree h old)
   | none => false
 
+/-- the text `print_item` prints for the item at `r` (a tag without an item prints NULL) -/
+partial def fmtRef (h : H) (r : Ref) : String :=
+  match h.get r with
+  | none => "DEAD"
+  | some c =>
+    match c.node with
+    | .tag n none => s!"G({n},NULL)"
+    | .tag n (some x) => s!"G({n},{fmtRef h x})"
+    | .arr d xs _ => (if d then "A[" else "a[") ++ ",".intercalate (xs.map (fmtRef h)) ++ "]"
+    | .map d ps _ => (if d then "M[" else "m[") ++ ",".intercalate (ps.map fun (k, v) => fmtRef h k ++ ":" ++ fmtRef h v) ++ "]"
+    | .strI t cs _ => (if t then "T[" else "B[") ++ ",".intercalate (cs.map (fmtRef h)) ++ "]"
+    | _ => match h.val r with
+      | some v => fmtItem v
+      | none => "NOVALUE"
+
 def histOp (L : Nat) (s : HState) (ws : List String) : Option (HState × String) :=
   match ws with
   | ["HRESET"] => some ({}, "reset")
@@ -90,9 +105,7 @@ def histOp (L : Nat) (s : HState) (ws : List String) : Option (HState × String)
   | "H" :: "dump" :: [x] => do
       let x ← x.toNat?
       match s.st.slot x with
-      | some r => match s.st.h.val r with
-        | some v => some (s, fmtItem v)
-        | none => some (s, "NOVALUE")
+      | some r => some (s, fmtRef s.st.h r)
       | none => some (s, "EMPTY")
   | "H" :: "ser" :: [x] => do
       let x ← x.toNat?
@@ -102,6 +115,13 @@ def histOp (L : Nat) (s : HState) (ws : List String) : Option (HState × String)
         let r := serInto v sz
         some (s, s!"{sz} {toHex (r.2.extract 0 r.1.toNat)}")
       | none => some (s, "EMPTY")
+  | "H" :: "drop" :: [x] => do
+      let x ← x.toNat?
+      match s.st.slot x with
+      | some _ =>
+        let (st, _) := step s.oracle L s.st (.decref x)
+        some ({ s with st := st }, "done" ++ summary st)
+      | none => some (s, "empty" ++ summary s.st)
   | "H" :: rest => do
       let op ← parseOp rest
       let old := s.st.h.cells.length
